@@ -200,6 +200,8 @@ partial def entryConv (env : T) (tyName : String) (el : Elem) : Outcome Val :=
   | "syn::Type", .field f => .ok (.toks f.tyToks)
   | "syn::Visibility", .field f => .ok (.toks f.vis)
   | "syn::Ident", .variant v => .ok (.toks v.ident)
+  | "syn::Ident", .typeParam t => .ok (.toks t.ident)
+  | "syn::TypeParam", .typeParam t => .ok (.toks t.toks)
   | n, el => outerRun env n el
 
 partial def runOuter (env : T) (r : ROuter) (el : Elem) : Outcome Val :=
@@ -250,6 +252,11 @@ partial def runOuter (env : T) (r : ROuter) (el : Elem) : Outcome Val :=
               | some t => t
               | none => "")
             | none => ""
+          let memberTy : String → String := fun m => match env.decls.find? (·.1 == r.base.ident) with
+            | some (_, _, dd, _) => (match dd.body with
+                | .struct _ fs => ((fs.find? (fun f => f.ident == some m)).map (·.tyToks)).getD ""
+                | _ => "")
+            | none => ""
           let fieldsTy : String := match env.decls.find? (·.1 == r.base.ident) with
             | some (_, _, dd, _) => (match dd.body with
                 | .struct _ fs => ((fs.find? (fun f => f.ident == some "fields")).map (·.tyToks)).getD ""
@@ -257,7 +264,20 @@ partial def runOuter (env : T) (r : ROuter) (el : Elem) : Outcome Val :=
             | none => ""
           let late : List (String × Outcome Val) := match el with
             | .deriveInput d =>
-                (if has "generics" then [("generics", .ok (genericsVal d))] else []) ++
+                (if has "generics" then
+                   let gTy := String.ofList ((memberTy "generics").toList.filter (· != ' '))
+                   let stripWrap := fun (pre : String) (t : String) =>
+                     if t.startsWith pre && t.endsWith ">" then some (String.ofList ((t.toList.drop pre.length).dropLast)) else none
+                   let v : Outcome Val :=
+                     match stripWrap "ast::Generics<" gTy with
+                     | none => .ok (genericsVal d)                       -- `syn::Generics`: a clone
+                     | some pTy =>
+                         -- `ast::Generics<P>`
+                         (match stripWrap "ast::GenericParam<" pTy with
+                          | none => genericsMirror none d.generics
+                          | some tTy => genericsMirror (some (fun t => entryConv env tTy (.typeParam t))) d.generics)
+                   [("generics", v)]
+                 else []) ++
                 (match r.dataField with
                  | some fw =>
                      let v : Outcome Val := match fw.with_ with
